@@ -180,6 +180,9 @@ def c_adjust(ctx, it, cfg):
         ctx.prove('extend/adds-quarter-of-original', eq(o.bins, bins0 + sym.trunc_int(to_real(o.originalBins) / 4)))
     if not change:
         frame(ctx, 'unchanged/self', o, pre, modifies=[])
+        # the grid stays as it is only if nothing has reached the last class: a populated last class always gets room above it (adaptive or not),
+        # otherwise particles leave the distribution through the upper end
+        ctx.prove('grid-left-alone-only-while-the-last-class-is-empty', le(p0(bins0 - 1), 1))
     if not cfg['ad'] and not extended:
         ctx.prove('fixed-binning-never-remeshes', change is False)
 
